@@ -347,3 +347,64 @@ Proof.
       destruct (all_some (map (seq_values rho) t)) eqn:E'; [discriminate|].
       rewrite (IH eq_refl). reflexivity.
 Qed.
+
+(* ---- loop trees: getOklLoopIndex = the dimension setKernelLaunch writes for the loop's depth ---- *)
+Lemma ltree_ind2 : forall P : ltree -> Prop,
+  (forall k cs, Forall P cs -> P (LNode k cs)) -> forall t, P t.
+Proof.
+  intros P H. fix F 1. intros [k cs]. apply H.
+  induction cs as [|c r IHr]; constructor; [apply F | exact IHr].
+Qed.
+
+Lemma same_below_unfold : forall k k' cs,
+  same_below k (LNode k' cs) = ((if Bool.eqb k k' then 1 else 0) + max_below k cs)%nat.
+Proof.
+  intros k k' cs. cbn [same_below]. f_equal.
+Qed.
+
+Lemma uniform_unfold : forall k n k' cs,
+  uniform k n (LNode k' cs) <->
+  (let own := if Bool.eqb k k' then 1%nat else O in
+   match cs with
+   | [] => n = own
+   | _ => exists m, n = (own + m)%nat /\ Forall (uniform k m) cs
+   end).
+Proof.
+  intros k n k' cs. cbn [uniform]. destruct cs as [|c r]; [tauto|].
+  assert (E : forall m l, (fix all (l : list ltree) : Prop :=
+                             match l with [] => True | c :: r => uniform k m c /\ all r end) l
+                          <-> Forall (uniform k m) l).
+  { intros m l. induction l as [|a t IH]; split; intro H.
+    - constructor.
+    - exact I.
+    - destruct H as [H1 H2]. constructor; [exact H1|apply IH; exact H2].
+    - inversion H; subst. split; [assumption|apply IH; assumption]. }
+  split; intros [m [Hn Ha]]; exists m; (split; [exact Hn|]).
+  - apply (proj1 (E m (c :: r))). exact Ha.
+  - apply (proj2 (E m (c :: r))). exact Ha.
+Qed.
+
+Lemma same_below_uniform : forall k t n, uniform k n t -> same_below k t = n.
+Proof.
+  intros k t. induction t as [k' cs IH] using ltree_ind2. intros n H.
+  rewrite same_below_unfold. apply uniform_unfold in H. cbv zeta in H.
+  destruct cs as [|c r]; [cbn [max_below fold_right]; lia|].
+  destruct H as [m [-> Hall]]. f_equal.
+  assert (G : forall l, Forall (fun t => forall n, uniform k n t -> same_below k t = n) l ->
+                        Forall (uniform k m) l -> l <> [] -> max_below k l = m).
+  { induction l as [|a t IHl]; intros HI HU Hne; [contradiction|].
+    inversion HI; subst. inversion HU; subst. cbn [max_below fold_right].
+    rewrite (H1 m H3). destruct t as [|b t'].
+    - cbn [fold_right]. lia.
+    - fold (max_below k (b :: t')). rewrite IHl; try assumption; [lia|discriminate]. }
+  apply G; [exact IH|exact Hall|discriminate].
+Qed.
+
+(* in a valid kernel every path below a loop holds the same number of loops of its kind: the index the
+   device code reads is that number minus the loop itself, i.e. D - 1 - d for the d-th of D loops *)
+Theorem loop_index_uniform : forall k cs n,
+  uniform k n (LNode k cs) -> loop_index (LNode k cs) = (n - 1)%nat.
+Proof.
+  intros k cs n H. pose proof (same_below_uniform _ _ _ H) as E.
+  rewrite same_below_unfold, Bool.eqb_reflx in E. cbn [loop_index]. lia.
+Qed.
